@@ -41,25 +41,26 @@ type Run struct {
 	Cross   bool
 	t0      time.Time
 
-	mu            sync.Mutex
-	Results       []*OblResult
-	Violations    []string // printed lines
-	Known         []string
-	Undecided     []string
-	Assumptions   map[string]bool
-	Trusted       map[string]bool
-	Notes         map[string]interface{}
-	Funcs         map[string]string // function under contract -> how (hand-written / schema / inlined)
-	Stale         []string
-	Bounded       []string
-	unmodelled    map[string]bool
-	notApplicable map[string]int
-	aborted       bool // a family was cut short after many failures: no second rounds
-	deadline      time.Time
-	overBudget    int
-	engineErr     []string
-	only          string
-	samples       []map[string]interface{}
+	mu               sync.Mutex
+	Results          []*OblResult
+	Violations       []string // printed lines
+	Known            []string
+	Undecided        []string
+	Assumptions      map[string]bool
+	Trusted          map[string]bool
+	Notes            map[string]interface{}
+	Funcs            map[string]string // function under contract -> how (hand-written / schema / inlined)
+	Stale            []string
+	Bounded          []string
+	unmodelled       map[string]bool
+	notApplicable    map[string]int
+	aborted          bool // a family was cut short after many failures: no second rounds
+	crossOK, crossNo int
+	deadline         time.Time
+	overBudget       int
+	engineErr        []string
+	only             string
+	samples          []map[string]interface{}
 }
 
 func newRun(prop, tier, verif, repo string, seed int64) *Run {
@@ -111,6 +112,21 @@ func (r *Run) discharge(vcs []*VC) []*OblResult {
 			switch res.Status {
 			case "unsat":
 				or.Status = "discharged"
+				if r.Cross {
+					confirmed := false
+					for _, v := range res.Others {
+						if v == "unsat" {
+							confirmed = true
+						}
+					}
+					r.mu.Lock()
+					if confirmed {
+						r.crossOK++
+					} else {
+						r.crossNo++
+					}
+					r.mu.Unlock()
+				}
 			case "sat":
 				or.Status = "failed"
 				or.Failed = res.Failed
@@ -207,6 +223,21 @@ func (r *Run) pipeline(n int, gen func(i int) (*VC, error)) []*OblResult {
 			or.Status = "discharged"
 			if second {
 				or.Note = "second attempt"
+			}
+			if r.Cross && !second {
+				confirmed := false
+				for _, v := range res.Others {
+					if v == "unsat" {
+						confirmed = true
+					}
+				}
+				r.mu.Lock()
+				if confirmed {
+					r.crossOK++
+				} else {
+					r.crossNo++
+				}
+				r.mu.Unlock()
 			}
 		case "sat":
 			or.Status = "failed"
@@ -376,6 +407,9 @@ func (r *Run) finish(checkerCmd string) int {
 	}
 	if len(r.notApplicable) > 0 {
 		cov["contracts_not_applicable_at_a_site_body_verified_in_place"] = r.notApplicable
+	}
+	if r.Cross {
+		cov["second_solver"] = map[string]int{"unsat_confirmed_by_a_second_solver": r.crossOK, "second_solver_gave_no_answer_in_time": r.crossNo}
 	}
 	kinds := map[string]int{}
 	for _, o := range r.Results {
